@@ -635,7 +635,10 @@ class Node:
             for n in topnodes:
                 if n._data_id in own_ids:
                     raise UniqueConstraintError(f"Node.data already exists in parent: {n}")
-            if isinstance(before, (int, Node)) or before is True:
+            if isinstance(before, int):  # (includes `True`)
+                # Every node is inserted at the same index, so add the last one first.
+                # (With `before=<node>` each node lands directly before that node, i.e.
+                # behind the previous one.)
                 topnodes.reverse()
             n = None  # source tree may be empty
             for n in topnodes:
